@@ -29,13 +29,14 @@ fn op() -> BoxedStrategy<Op> {
         8 => Just(Op::Next),
         2 => Just(Op::Owned),
         6 => (0u8..3).prop_map(Op::ReadSet),
-        6 => (0u8..3, prop_oneof![4 => 1u8..=3, 2 => 4u8..=7, 1 => 8u8..=20]).prop_map(|(s, n)| Op::ReadExact(s, n)),
+        6 => (0u8..3, prop_oneof![8 => 1u8..=3, 4 => 4u8..=7, 2 => 8u8..=20, 1 => 250u8..=255]).prop_map(|(s, n)| Op::ReadExact(s, n)),
         4 => any::<u16>().prop_map(Op::Seek),
         1 => any::<u16>().prop_map(Op::SeekSeen),
         2 => gen::policy_any().prop_map(Op::SetPolicy),
         1 => Just(Op::IntoRecords),
         1 => (0u8..3).prop_map(Op::ShrinkSet),
         1 => (0u8..3, 0u8..3).prop_map(|(a, b)| Op::CloneSet(a, b)),
+        1 => (0u8..3, 0u8..3).prop_map(|(a, b)| Op::CloneFromSet(a, b)),
     ]
     .boxed()
 }
@@ -174,7 +175,7 @@ impl Prop for EnumeratedFaults {
     }
 }
 
-pub const RULE: &str = "cases = (format, input from {documents, mutated documents, byte soups, out-of-domain FASTQ}, capacity, any policy incl. refusing ones (RefuseAlways, RefuseAbove, DoubleUntilLimited with small limits), chunk/interrupt script with an optional injected source error (one-shot or sticky, any kind) at a generated source call, history of 0..24 operations incl. set_policy, seeks to true record starts, calls after errors and after end). Validity predicate: no panic (catch_unwind, overflow checks on), no livelock (deterministic source-call budget), every record handed out by any call or held by any record set at any time is a record of the input, reader outputs in file order (floor advances, reset by seeks). Sub-check enumerated-faults: histories in which every seek is retried (seek, same seek again, next), with a one-shot source error at EVERY source call k of the fault-free run; every faulted trace must satisfy the same predicate (evaluations counts the (case, k) pairs). Non-trivial = the history has a call after an error or after end, or iterates a set after a failed fill, or an injected fault fired. Distinct = hash(case).";
+pub const RULE: &str = "cases = (format, input from {documents, mutated documents, byte soups, out-of-domain FASTQ}, capacity, any policy incl. refusing ones (RefuseAlways, RefuseAbove, DoubleUntilLimited with small limits), chunk/interrupt script with an optional injected source error (one-shot or sticky, any kind) at a generated source call, history of 0..24 operations incl. set_policy, seeks to true record starts, calls after errors and after end). Validity predicate: no panic (catch_unwind, overflow checks on), no livelock (deterministic source-call budget), every record handed out by any call or held by any record set at any time is a record of the input, reader outputs in file order (floor advances, reset by seeks). Sub-check enumerated-faults: histories in which every seek is retried (seek, same seek again, next), with a one-shot source error at EVERY source call k of the fault-free run; every faulted trace must satisfy the same predicate (evaluations counts the (case, k) pairs). Non-trivial = the history has a call after an error or after end, or iterates a set after a failed fill, or an injected fault fired. Distinct = hash(case). Sub-check constructors: any input written to a temporary file and read through Reader::new, from_path and from_path_with_capacity - no panic, outcome as the model's (files of 0, 1, 2 bytes included). Exact-count reads in histories also use the counts a caller passes to say 'everything' (usize::MAX, isize::MAX, 2^40, u32::MAX).";
 
 pub fn run(tier: Tier) -> i32 {
     let mut run = Run::new("C06", tier, "exploration");
@@ -186,6 +187,12 @@ pub fn run(tier: Tier) -> i32 {
     let e = EnumeratedFaults;
     run.replays("enumerated-faults", &e);
     run.generated("enumerated-faults", &e, tier.pick(30_000, 600_000));
+    // the constructors that open files reach the same readers: no byte string makes them panic either
+    for f in [Format::Fasta, Format::Fastq] {
+        let k = super::c01::Constructors(f);
+        run.replays("constructors", &k);
+        run.generated("constructors", &k, tier.pick(10_000, 150_000));
+    }
     run.finish(
         RULE,
         &[
@@ -198,4 +205,5 @@ pub fn run(tier: Tier) -> i32 {
 
 pub fn replay(run: &mut Run, file: &std::path::Path) -> Option<bool> {
     run.replay_file("total-genuine", &Total, file, true).or_else(|| run.replay_file("enumerated-faults", &EnumeratedFaults, file, true))
+        .or_else(|| run.replay_file("constructors", &super::c01::Constructors(Format::Fasta), file, true))
 }
